@@ -349,10 +349,19 @@ struct World {
         if (victim.IsValid()) {
             st.cls("collision-victim-selected");
             unsigned how = s.range<unsigned>(0, 3);
-            if (how == 0) { am->Attempt(victim, s.boolean(), t(now)); now += 61 + s.range<int64_t>(0, 30); }      // failed test, > 60 s ago => evict
-            else if (how == 1) { am->Good(victim, t(now)); now += s.range<int64_t>(0, 600); }                     // victim still alive => keep
-            else if (how == 2) { now += 40 * 60 + s.range<int64_t>(-2, 120); }                                    // test window expires
-            else { am->Attempt(victim, false, t(now)); now += s.range<int64_t>(0, 60); }                          // too early
+            if (how == 0) {            // victim last succeeded > 4 h ago, fails its test now, > 60 s pass => evicted
+                now += 4 * 3600 + 1 + s.range<int64_t>(0, 600); set_now();
+                am->Attempt(victim, s.boolean(), t(now));
+                now += 61 + s.range<int64_t>(0, 30);
+            } else if (how == 1) {     // victim still alive => kept
+                am->Good(victim, t(now));
+                now += s.range<int64_t>(0, 600);
+            } else if (how == 2) {     // nobody tested the victim; replacement window and test window both expire => evicted anyway
+                now += 4 * 3600 + 40 * 60 + s.range<int64_t>(-2, 120);
+            } else {                   // tested a moment ago: too early to decide
+                am->Attempt(victim, false, t(now));
+                now += s.range<int64_t>(0, 60);
+            }
             set_now();
         }
         size_t tried_before = am->Size(std::nullopt, false), new_before = am->Size(std::nullopt, true);
